@@ -10,11 +10,14 @@ pub struct InputOpts {
     pub foreign: bool,
     pub allow_raw: bool,
     pub all_encodings: bool,
+    /// only characters whose encoded bytes are all >= 0x80 (byte-level tokenization can then
+    /// never split a character, so every text node round-trips)
+    pub safe_only: bool,
 }
 
 impl Default for InputOpts {
     fn default() -> Self {
-        InputOpts { max_frags: 20, foreign: true, allow_raw: true, all_encodings: true }
+        InputOpts { max_frags: 20, foreign: true, allow_raw: true, all_encodings: true, safe_only: false }
     }
 }
 
@@ -28,7 +31,7 @@ pub fn pick_encoding(t: &mut Tape<'_>, all: bool) -> &'static Encoding {
 
 /// Transcode a UTF-8 soup into `enc`: ASCII kept, every non-ASCII char replaced by a char of
 /// the encoding's pool (chosen from the tape) and encoded.
-pub fn transcode(t: &mut Tape<'_>, s: &str, enc: &'static Encoding) -> Vec<u8> {
+pub fn transcode(t: &mut Tape<'_>, s: &str, enc: &'static Encoding, safe_only: bool) -> Vec<u8> {
     if enc == encoding_rs::UTF_8 {
         return s.as_bytes().to_vec();
     }
@@ -38,7 +41,7 @@ pub fn transcode(t: &mut Tape<'_>, s: &str, enc: &'static Encoding) -> Vec<u8> {
         if c.is_ascii() {
             out.push(c as u8);
         } else {
-            let n = p.safe.len() + p.ascii_trail.len();
+            let n = p.safe.len() + if safe_only { 0 } else { p.ascii_trail.len() };
             if n == 0 {
                 out.push(b'?');
                 continue;
@@ -55,12 +58,13 @@ pub fn transcode(t: &mut Tape<'_>, s: &str, enc: &'static Encoding) -> Vec<u8> {
 
 pub fn input(t: &mut Tape<'_>, o: &InputOpts) -> (Vec<u8>, &'static Encoding) {
     let enc = pick_encoding(t, o.all_encodings);
-    let kind = t.weighted(&[8, if o.allow_raw { 2 } else { 0 }, if o.allow_raw { 1 } else { 0 }]);
+    let raw = o.allow_raw && !o.safe_only;
+    let kind = t.weighted(&[8, if raw { 2 } else { 0 }, if raw { 1 } else { 0 }]);
     let bytes = match kind {
         0 => {
             let b = soup(t, &SoupOpts { max_frags: o.max_frags, foreign: o.foreign, raw_bytes: false });
             let s = String::from_utf8(b).expect("soup fragments are UTF-8");
-            transcode(t, &s, enc)
+            transcode(t, &s, enc, o.safe_only)
         }
         1 => soup(t, &SoupOpts { max_frags: o.max_frags, foreign: o.foreign, raw_bytes: true }),
         _ => gbytes(t, 64),
